@@ -4,9 +4,9 @@
    for every name conversion); [compile] instantiates them with lib/Strcase.v. *)
 From Coq Require Import String List NArith Bool.
 From J5V.lib Require Import Outcome Strcase.
-From J5V.model Require Import J5sAst Desc J5sWalk J5sLink J5sConvert J5sContract J5sSymbols J5sValid J5sCorr.
+From J5V.model Require Import J5sAst Desc J5sWalk J5sLink J5sConvert J5sContract J5sSymbols J5sTypeNames J5sValid J5sCorr.
 From J5V.gen Require ImportsGen.
-From J5V.proofs Require Import J5sProofs J5sContractProofs J5sLinkProofs J5sResolveProofs J5sResolveCompleteProofs J5sServiceProofs J5sTotalProofs J5sSymbolProofs J5sCompileProofs J5sSubPkgProofs J5sWitnessProofs.
+From J5V.proofs Require Import J5sProofs J5sContractProofs J5sLinkProofs J5sResolveProofs J5sResolveCompleteProofs J5sServiceProofs J5sTotalProofs J5sSymbolProofs J5sCompileProofs J5sSubPkgProofs J5sDepsProofs J5sNameProofs J5sTypeNameProofs J5sWitnessProofs.
 Import ListNotations.
 Local Open Scope N_scope.
 
@@ -160,6 +160,33 @@ Theorem C02_imports_become_dependencies : forall self imps x,
 Proof. exact in_deps_of. Qed.
 Print Assumptions C02_imports_become_dependencies.
 
+(* ... and for compiled packages (whatever compile accepts, valid or not): every reference written
+   in a declaration of a source file of the package - at any depth, nested declarations,
+   requests, responses, topic messages and implicit leading fields included - resolves in the
+   file's environment (to the declaration the documented import rule denotes:
+   C02_references_follow_import_rule), and the file defining its target is the generated file
+   the declaration goes to (main / .service / .topic) or one of that file's dependencies *)
+Theorem C02_references_reach_dependencies : forall snake camel screaming bd pkg D,
+  compile_package snake camel screaming bd pkg = Ok D ->
+  forall f im, In (BJ f) bd -> j5s_pkg f = pkg -> import_map (jf_imports f) [] = Ok im ->
+  file_refs_ok (mkEnv (j5s_pkg f) im (pkg_exports camel bd)) f D.
+Proof. exact compile_refs_imported. Qed.
+Print Assumptions C02_references_reach_dependencies.
+
+(* ... and nothing else: every dependency of every generated file of a compiled package is the
+   defining file of a reference written in the declarations that go to that file (main /
+   .service / .topic), or one of the fixed files of the j5 / protobuf infrastructure
+   (J5sDepsProofs.infra_files: ext annotations, validation, well-known types, HTTP annotations,
+   HttpBody, messaging annotations, Empty) *)
+Theorem C02_dependencies_only_what_is_referenced : forall snake camel screaming bd pkg D,
+  compile_package snake camel screaming bd pkg = Ok D ->
+  forall df, In df D -> exists f im k,
+    In (BJ f) bd /\ j5s_pkg f = pkg /\ import_map (jf_imports f) [] = Ok im /\
+    fl_path df = kind_path f k /\
+    only_refs (mkEnv (j5s_pkg f) im (pkg_exports camel bd)) (kind_refs f k) (fl_deps df).
+Proof. exact compile_deps_only. Qed.
+Print Assumptions C02_dependencies_only_what_is_referenced.
+
 (* ---- type names after the link step (fix 2ef7c92: names without a leading dot are qualified
    before linking): the name Root.Path.Name the converter writes for an inline type becomes
    .<package>.Root.Path.Name - whatever else is nested in the file - and the bare name of a map
@@ -186,6 +213,41 @@ Theorem C02_symbol_table_is_declared : forall snake camel screaming bd pkg fs,
   package_symbols bd pkg fs = decl_package_symbols snake camel screaming bd pkg.
 Proof. exact package_symbols_declared. Qed.
 Print Assumptions C02_symbol_table_is_declared.
+
+(* ... and for the compiled main files of a valid bundle (files in package directories): the
+   list of (field, type name) pairs of the linked descriptor - every field of every message at
+   every depth - is the declared one (J5sTypeNames): a scalar with a message representation
+   names its well-known type, a reference .<package>.<Name> of the declaration it resolves to, an
+   inline object / oneof / enum .<package>.<Root>.<Path>.<Name> nested under the message of the
+   field, a map field its entry message, the entry's value field the item type *)
+Theorem C02_field_type_names : forall bd pkg D,
+  valid bd = true -> (forall x, In x bd -> bfile_pkg x <> []) -> compile bd pkg = Ok D ->
+  forall f im, In (BJ f) bd -> j5s_pkg f = pkg -> import_map (jf_imports f) [] = Ok im ->
+  exists df, In df D /\
+    main_types_ok to_snake to_camel (mkEnv (j5s_pkg f) im (pkg_exports to_camel bd)) f df.
+Proof. exact (compile_tnames to_snake to_camel to_screaming_snake to_camel_nodot to_snake_nodot). Qed.
+Print Assumptions C02_field_type_names.
+
+(* the same for the request / response / topic messages: the .service and .topic files *)
+Theorem C02_field_type_names_subpackages : forall bd pkg D,
+  valid bd = true -> (forall x, In x bd -> bfile_pkg x <> []) -> compile bd pkg = Ok D ->
+  forall f im, In (BJ f) bd -> j5s_pkg f = pkg -> import_map (jf_imports f) [] = Ok im ->
+  (file_services f <> [] ->
+     exists df, In df D /\ service_types_ok to_snake to_camel (mkEnv (j5s_pkg f) im (pkg_exports to_camel bd)) f df) /\
+  (file_topics f <> [] ->
+     exists df, In df D /\ topic_types_ok to_snake to_camel (mkEnv (j5s_pkg f) im (pkg_exports to_camel bd)) f df).
+Proof. exact (compile_sub_tnames to_snake to_camel to_screaming_snake to_camel_nodot to_snake_nodot). Qed.
+Print Assumptions C02_field_type_names_subpackages.
+
+(* what the declared list looks like: object Foo { field x object { field q string }
+   object Foo { object X { field other string } } } (the package of a repaired defect) *)
+Example C02_type_names_example :
+  flat_map (elem_ftypes to_snake to_camel (mkEnv (b "foo.v1") [] (pkg_exports to_camel w_captured)) (b "foo.v1"))
+    [EObject (b "Foo")
+        (mkprops [Property (b "x") false false (FObjInline [] (mkprops [sfield "q"]))])
+        (mknesteds [NObject (b "Foo") PNil (mknesteds [NObject (b "X") (mkprops [sfield "other"]) NNil])])] =
+  [(b "foo.v1.Foo.x", b ".foo.v1.Foo.X"); (b "foo.v1.Foo.X.q", []); (b "foo.v1.Foo.Foo.X.other", [])].
+Proof. vm_compute. reflexivity. Qed.
 
 (* ---- acceptance: in a valid bundle every source file of every package converts, and the whole
    package compiles (conversion, link step, link of every imported generated file; the fuel of
